@@ -55,6 +55,7 @@ type c11Pkg struct {
 	shared    map[string]bool            // struct type names considered shared
 	fields    map[string]map[string]bool // type -> field names
 	fieldUniq map[string]string          // field name -> the only shared type declaring it ("" if ambiguous)
+	initOnly  map[string]bool            // functions called from package-level initialisers / init() and from nowhere else
 	acc       []c11Access
 	capt      []c11Captured
 }
@@ -90,7 +91,9 @@ func c11Collect(name string, files []*ast.File) *c11Pkg {
 					case *ast.ValueSpec:
 						if d.Tok == token.VAR {
 							for _, n := range sp.Names {
-								p.pkgVars[n.Name] = true
+								if n.Name != "_" {
+									p.pkgVars[n.Name] = true
+								}
 							}
 						}
 					case *ast.TypeSpec:
@@ -114,7 +117,7 @@ func c11Collect(name string, files []*ast.File) *c11Pkg {
 			case *ast.FuncDecl:
 				if d.Recv != nil && len(d.Recv.List) == 1 {
 					switch d.Name.Name {
-					case "Eval", "Kind", "Hash":
+					case "Eval", "Kind", "Hash", "Bind":
 						if tn, _ := c11BaseName(d.Recv.List[0].Type); tn != "" {
 							p.shared[tn] = true
 						}
@@ -129,6 +132,43 @@ func c11Collect(name string, files []*ast.File) *c11Pkg {
 	for t := range p.shared {
 		if _, isStruct := p.fields[t]; !isStruct {
 			delete(p.shared, t)
+		}
+	}
+	// functions that run during package initialisation only
+	inInit, elsewhere := map[string]bool{}, map[string]bool{}
+	calls := func(n ast.Node, into map[string]bool) {
+		ast.Inspect(n, func(n ast.Node) bool {
+			if c, ok := n.(*ast.CallExpr); ok {
+				if id, ok := c.Fun.(*ast.Ident); ok {
+					into[id.Name] = true
+				}
+			}
+			return true
+		})
+	}
+	for _, f := range files {
+		for _, d := range f.Decls {
+			switch d := d.(type) {
+			case *ast.GenDecl:
+				if d.Tok == token.VAR {
+					calls(d, inInit)
+				}
+			case *ast.FuncDecl:
+				if d.Body == nil {
+					continue
+				}
+				if d.Recv == nil && d.Name.Name == "init" {
+					calls(d.Body, inInit)
+				} else {
+					calls(d.Body, elsewhere)
+				}
+			}
+		}
+	}
+	p.initOnly = map[string]bool{}
+	for f := range inInit {
+		if !elsewhere[f] {
+			p.initOnly[f] = true
 		}
 	}
 	cnt := map[string][]string{}
@@ -149,7 +189,9 @@ func c11Collect(name string, files []*ast.File) *c11Pkg {
 type c11Fn struct {
 	p       *c11Pkg
 	name    string
-	ptrVars map[string]string // identifier -> struct type it points to (receiver, *T parameters)
+	ptrVars map[string]string // identifier -> struct type of a receiver / parameter (T or *T)
+	valVars map[string]bool   // those of them passed by value: only writes through an index reach shared memory
+	initFn  bool              // the function is called from package initialisers only
 	locals  map[string]bool
 	doneDo  []string // once expressions whose Do(...) statement has already been passed in this function
 }
@@ -187,6 +229,9 @@ func (fn *c11Fn) loc(e ast.Expr) string {
 				return fn.p.name + "." + t + "." + x.Sel.Name
 			}
 			if fn.p.pkgVars[id.Name] && !fn.locals[id.Name] {
+				if t := fn.p.fieldUniq[x.Sel.Name]; t != "" {
+					return fn.p.name + "." + t + "." + x.Sel.Name
+				}
 				return fn.p.name + "." + id.Name
 			}
 			return ""
@@ -282,7 +327,15 @@ type c11Lit struct {
 
 func (fn *c11Fn) record(e ast.Expr, write bool, held []string) {
 	if l := fn.loc(e); l != "" {
+		if id := fn.rootIdent(e); write && id != nil && fn.valVars[id.Name] {
+			if _, viaIndex := e.(*ast.IndexExpr); !viaIndex {
+				return // assignment to a field of a by-value copy
+			}
+		}
 		h := append([]string{}, held...)
+		if fn.initFn {
+			h = append(h, "init")
+		}
 		if !write {
 			for _, d := range fn.doneDo {
 				h = append(h, "after:"+d)
@@ -608,9 +661,45 @@ func c11MarkConcurrent(body *ast.BlockStmt) map[*ast.FuncLit]string {
 	return out
 }
 
+// c11GuardSets renders a set of "+"-joined guard combinations as a Lean List (List (String × String)).
+func c11GuardSets(m map[string]bool) string {
+	ks := make([]string, 0, len(m))
+	for k := range m {
+		ks = append(ks, k)
+	}
+	sort.Strings(ks)
+	sets := []string{}
+	for _, k := range ks {
+		items := []string{}
+		if k != "" {
+			for _, g := range strings.Split(k, "+") {
+				kind, name := g, ""
+				if i := strings.Index(g, ":"); i >= 0 {
+					kind, name = g[:i], g[i+1:]
+				}
+				items = append(items, "("+leanStr(kind)+", "+leanStr(name)+")")
+			}
+		}
+		sets = append(sets, "["+strings.Join(items, ", ")+"]")
+	}
+	return "[" + strings.Join(sets, ", ") + "]"
+}
+
 func factsC11(repo string, pkgs map[string][]*ast.File) (string, map[string]interface{}) {
-	type row struct{ A, B, C, D string }
-	var rows []row
+	type row struct {
+		kind, loc     string
+		wg, rg        map[string]bool
+		writers, bare map[string]bool
+	}
+	rows := map[string]*row{}
+	get := func(kind, loc string) *row {
+		k := kind + "\x00" + loc
+		if rows[k] == nil {
+			rows[k] = &row{kind: kind, loc: loc, wg: map[string]bool{}, rg: map[string]bool{}, writers: map[string]bool{},
+				bare: map[string]bool{}}
+		}
+		return rows[k]
+	}
 	for _, pn := range c11Pkgs {
 		files := pkgs[pn]
 		p := c11Collect(pn, files)
@@ -620,7 +709,8 @@ func factsC11(repo string, pkgs map[string][]*ast.File) (string, map[string]inte
 				if !ok || fd.Body == nil {
 					continue
 				}
-				fn := &c11Fn{p: p, name: recvName(fd) + fd.Name.Name, ptrVars: map[string]string{}, locals: map[string]bool{}}
+				fn := &c11Fn{p: p, name: recvName(fd) + fd.Name.Name, ptrVars: map[string]string{}, valVars: map[string]bool{},
+					locals: map[string]bool{}, initFn: p.initOnly[fd.Name.Name] && fd.Recv == nil}
 				add := func(fl *ast.FieldList) {
 					if fl == nil {
 						return
@@ -629,8 +719,11 @@ func factsC11(repo string, pkgs map[string][]*ast.File) (string, map[string]inte
 						tn, ptr := c11BaseName(fld.Type)
 						for _, n := range fld.Names {
 							fn.locals[n.Name] = true
-							if ptr && tn != "" {
+							if tn != "" {
 								fn.ptrVars[n.Name] = tn
+								if !ptr {
+									fn.valVars[n.Name] = true
+								}
 							}
 						}
 					}
@@ -674,93 +767,72 @@ func factsC11(repo string, pkgs map[string][]*ast.File) (string, map[string]inte
 				fn.walkStmts(fd.Body.List, nil, nil)
 			}
 		}
-		// ---- state rows: locations with at least one write
-		type agg struct {
-			wg, rg   map[string]bool
-			wf       map[string]bool
-			bareRead map[string]bool
-		}
-		locs := map[string]*agg{}
+		// ---- state rows: locations with at least one write after construction
+		written := map[string]bool{}
 		for _, a := range p.acc {
 			if a.write {
-				if locs[a.loc] == nil {
-					locs[a.loc] = &agg{wg: map[string]bool{}, rg: map[string]bool{}, wf: map[string]bool{}, bareRead: map[string]bool{}}
-				}
-				g := a.guards
-				if g == "" {
-					g = "none"
-				}
-				locs[a.loc].wg[g] = true
-				locs[a.loc].wf[a.fn] = true
+				written[a.loc] = true
 			}
 		}
 		for _, a := range p.acc {
-			if !a.write && locs[a.loc] != nil {
+			if !written[a.loc] {
+				continue
+			}
+			r := get("state", a.loc)
+			if a.write {
+				r.wg[a.guards] = true
+				r.writers[a.fn] = true
+			} else {
+				r.rg[a.guards] = true
 				if a.guards == "" {
-					locs[a.loc].bareRead[a.fn] = true
-				} else {
-					locs[a.loc].rg[a.guards] = true
+					r.bare[a.fn] = true
 				}
 			}
 		}
-		keys := func(m map[string]bool) string {
-			s := make([]string, 0, len(m))
-			for k := range m {
-				s = append(s, k)
-			}
-			sort.Strings(s)
-			return strings.Join(s, ",")
-		}
-		for l, a := range locs {
-			reads := keys(a.rg)
-			if len(a.bareRead) > 0 {
-				if reads != "" {
-					reads += ";"
-				}
-				reads += "bare@" + keys(a.bareRead)
-			}
-			rows = append(rows, row{"state", l, keys(a.wg) + "@" + keys(a.wf), reads})
-		}
+		// ---- captured rows
 		for _, c := range p.capt {
-			g := c.guards
-			if g == "" {
-				g = "none"
-			}
-			rows = append(rows, row{"captured", pn + "." + c.fn, c.callee + ":" + c.name, g})
+			r := get("captured", pn+"."+c.fn+"/"+c.callee+":"+c.name)
+			r.wg[c.guards] = true
+			r.writers[c.fn] = true
 		}
 	}
-	sort.Slice(rows, func(i, j int) bool {
-		a, b := rows[i], rows[j]
-		if a.A != b.A {
-			return a.A > b.A // state first
+	keys := make([]string, 0, len(rows))
+	for k := range rows {
+		keys = append(keys, k)
+	}
+	sort.Slice(keys, func(i, j int) bool {
+		a, b := rows[keys[i]], rows[keys[j]]
+		if a.kind != b.kind {
+			return a.kind > b.kind // state first
 		}
-		if a.B != b.B {
-			return a.B < b.B
-		}
-		if a.C != b.C {
-			return a.C < b.C
-		}
-		return a.D < b.D
+		return a.loc < b.loc
 	})
-	// de-duplicate
-	uniq := rows[:0]
-	for i, r := range rows {
-		if i == 0 || r != rows[i-1] {
-			uniq = append(uniq, r)
+	strs := func(m map[string]bool) []string {
+		s := make([]string, 0, len(m))
+		for k := range m {
+			s = append(s, k)
 		}
+		sort.Strings(s)
+		return s
 	}
-	rows = uniq
 	var b strings.Builder
-	b.WriteString("/-- (kind, location | function, write guards@writers | callee:variable, read guards | guard) -/\n")
-	b.WriteString("def lazyState : List (String × String × String × String) := [\n")
-	js := []map[string]string{}
-	for i, r := range rows {
+	b.WriteString("/-- (kind, location, guard sets of the writes, guard sets of the reads ([] = an unguarded read), writers) -/\n")
+	b.WriteString("def lazyState : List (String × String × List (List (String × String)) × List (List (String × String)) × List String) := [\n")
+	js := []map[string]interface{}{}
+	for i, k := range keys {
+		r := rows[k]
 		sep := ","
-		if i == len(rows)-1 {
+		if i == len(keys)-1 {
 			sep = ""
 		}
-		fmt.Fprintf(&b, "  (%s, %s, %s, %s)%s\n", leanStr(r.A), leanStr(r.B), leanStr(r.C), leanStr(r.D), sep)
-		js = append(js, map[string]string{"kind": r.A, "where": r.B, "what": r.C, "guard": r.D})
+		ws := []string{}
+		for _, w := range strs(r.writers) {
+			ws = append(ws, leanStr(w))
+		}
+		fmt.Fprintf(&b, "  (%s, %s, %s, %s, [%s])%s\n", leanStr(r.kind), leanStr(r.loc), c11GuardSets(r.wg), c11GuardSets(r.rg),
+			strings.Join(ws, ", "), sep)
+		js = append(js, map[string]interface{}{"kind": r.kind, "location": r.loc, "writeGuards": strs(r.wg),
+			"readGuards": strs(r.rg), "writers": strs(r.writers), "unguardedReaders": strs(r.bare)})
 	}
 	b.WriteString("]\n")
 	return b.String(), map[string]interface{}{"lazyState": js}
